@@ -449,6 +449,17 @@ class Interp:
         self.r.info["mixed_binary"] = self.r.info.get("mixed_binary", 0) + int(
             xa.qnidx != xb.qnidx or xa.to_right != xb.to_right or xa.is_complex != xb.is_complex)
 
+    def i_cadd(self, ins):
+        """a + i*b : a genuinely complex superposition"""
+        a, b, regs = self._binary_pair(ins)
+        if a is None or b is None or len(regs) > 12:
+            return
+        if not self._nonzero_sum(a.model, 1j * b.model):
+            return
+        ok, c = self.guard("arith.cadd", lambda: a.obj.add(b.obj.scale(1j)))
+        if ok:
+            self._new(regs, c, a.model + 1j * b.model, a.q, "cadd", ins, "arith.add")
+
     def _scalar(self, ins):
         v = complex(ins["val"][0], ins["val"][1])
         return v if v.imag != 0 else v.real
